@@ -43,6 +43,27 @@ static inline void gvs_append_lit(struct gv_str *t, const char *lit)
 #undef GVS_PUT
 }
 
+/* models of read-only std::string members that 'fast path' edits of str2xml use (rules with fire count 0 in unit.json) */
+#define GVS_NPOS (-1L)
+static inline long gvs_find_first_of(const struct gv_str *s, const char *set)
+{
+  for (long k = 0; k < s->len; k++)
+    for (int m = 0; m < 8 && set[m] != 0; m++)
+      if (s->buf[k] == set[m]) return k;
+  return GVS_NPOS;
+}
+/* `return str;` : the result is a copy of the argument (lives in the result buffer like every other result) */
+static inline struct gv_str gvs_copy_out(const struct gv_str *s)
+{
+  struct gv_str r;
+  r.len = s->len; r.cap = gv_out_cap; r.buf = gv_out_buf;
+  for (long k = 0; k < s->len; k++) {
+    __CPROVER_assert(k < gv_out_cap, "result is at most 6 bytes per input byte (copy fits the 6*n buffer)");
+    gv_out_buf[k] = s->buf[k];
+  }
+  return r;
+}
+
 #include "xml_spec.h"   /* specification vocabulary + spec function xml_unescape (shared with replay.cpp) */
 /* segment [p, p+l) lies inside [0, end), 1 <= l <= 6 (written without a sum that could overflow) */
 #define SEG_IN(p, l, end) (0 <= (p) && 1 <= (l) && (l) <= 6 && (p) <= (end) && (l) <= (end) - (p))
